@@ -147,6 +147,9 @@ func (L *Loaded) Execute(inst Instance) (x *Exec, err error) {
 		return nil, fmt.Errorf("harness function %s.%s not found", inst.Pkg, inst.Func)
 	}
 	x = NewExec(L.Prog, inst.Cfg)
+	if os.Getenv("GSX_NOFEAS") != "" {
+		x.FeasOff = true
+	}
 	if os.Getenv("GSX_PROF") != "" {
 		x.Prof, x.ProfCalls = map[string]int{}, map[string]int{}
 		defer func() {
